@@ -37,6 +37,8 @@ var (
 		{"a.ns.svc.cluster.local", []int{80}}, {"b.ns.svc.cluster.local", []int{80, 8080}},
 		{"a.other.svc.cluster.local", []int{80}}, {"c.example.com", []int{8080}}, {"api.example.com", []int{80, 8080}},
 		{"d.ns.svc.cluster.local", []int{8080}},
+		// a namespace whose name has the proxy's namespace "ns" as a strict prefix
+		{"a.ns-x.svc.cluster.local", []int{80}}, {"e.ns-x.svc.cluster.local", []int{80, 8080}},
 	}
 	bExtHosts = []string{"ext.example.org", "Ext2.Example.Org"}
 )
@@ -159,6 +161,23 @@ func genVhostCases(t *testing.T, c *vlib.Collector, id int, seed uint64) int {
 			auths = append(auths, v.Hosts...)
 		}
 		auths = append(auths, strings.ToUpper(sc.Svcs[0].Host))
+		// the alt-domain family of every Kubernetes service of the pool: short name, name.ns,
+		// name.ns.svc, absolute FQDN, with and without port
+		for _, s := range bSvcPool {
+			if !strings.HasSuffix(s.Host, ".svc.cluster.local") {
+				continue
+			}
+			parts := strings.Split(s.Host, ".")
+			fam := []string{parts[0], parts[0] + "." + parts[1], parts[0] + "." + parts[1] + ".svc", s.Host + "."}
+			for _, f := range fam {
+				if r.Chance(60) {
+					auths = append(auths, f)
+				}
+				if r.Chance(25) {
+					auths = append(auths, f+":"+strconv.Itoa(sc.Port))
+				}
+			}
+		}
 		seen := map[string]bool{}
 		var reqs []Request
 		for _, a := range auths {
@@ -167,6 +186,9 @@ func genVhostCases(t *testing.T, c *vlib.Collector, id int, seed uint64) int {
 			}
 			seen[a] = true
 			for _, p := range []string{"/x/1", "/y"} {
+				if p == "/y" && r.Chance(50) {
+					continue
+				}
 				q := Request{Path: p, Method: "GET", Authority: a, Scheme: "http"}
 				if r.Chance(50) {
 					q.Headers = [][2]string{{"x-a", vlib.Pick(r, []string{"v1", "v2"})}}
